@@ -398,6 +398,11 @@ class FuncVisitor(ast.NodeVisitor):
                 self.globals_declared.update(n.names)
         # collect local names
         for n in own:
+            if isinstance(n, (ast.Import, ast.ImportFrom)):
+                # a function-local import binds a module / function name, not a local value: calls through it must be
+                # resolved like calls through a module-level import (Package._load records both kinds), otherwise
+                # everything reached through a late import drops out of the call graph
+                continue
             for t in _targets_of(n):
                 for nm in _names_in_target(t):
                     if nm not in self.globals_declared:
